@@ -120,4 +120,47 @@ def digestSplit (P : Params) (pieces : List (List UInt8)) : List UInt8 := finish
 
 def digest (P : Params) (msg : List UInt8) : List UInt8 := digestSplit P [msg]
 
+/-! ### the object life cycle: `is_finished_` and the `TBOX_ASSERT(!is_finished_)` of `update` -/
+
+structure Obj where
+  ctx : Ctx
+  finished : Bool
+
+def Obj.new (P : Params) : Obj := ⟨init P, false⟩
+
+/-- `MD5::update` (debug build: aborts on a finished object) -/
+def Obj.update (P : Params) (o : Obj) (data : List UInt8) : Res Obj :=
+  if o.finished then .assertFail else .ok { o with ctx := Md5.update P o.ctx data }
+
+/-- the padding and the bit-count block that `finish` feeds through `update` -/
+def finishPad (P : Params) (c : Ctx) : List UInt8 :=
+  let index := ((c.count0 >>> 3) &&& 0x3F).toNat
+  P.padding.take (if index < 56 then 56 - index else 120 - index)
+def finishBits (c : Ctx) : List UInt8 := unwords [c.count0, c.count1]
+
+/-- the context after `finish`: the two internal `update` calls (padding, bit count) stay in it -/
+def finishCtx (P : Params) (c : Ctx) : Ctx := update P (update P c (finishPad P c)) (finishBits c)
+
+/-- `MD5::finish`: its first internal `update` aborts on a finished object; otherwise the digest and `is_finished_ = true` -/
+def Obj.finish (P : Params) (o : Obj) : Res (List UInt8 × Obj) :=
+  if o.finished then .assertFail else .ok (Md5.finish P o.ctx, ⟨finishCtx P o.ctx, true⟩)
+
+/-- a script step: `some data` = update, `none` = finish -/
+abbrev Step := Option (List UInt8)
+
+/-- run a script: the digests produced and whether the run ended in the abort -/
+def runScript (P : Params) : Obj → List Step → List (List UInt8) × Bool
+  | _, [] => ([], false)
+  | o, some d :: r =>
+    match o.update P d with
+    | .ok o' => runScript P o' r
+    | _ => ([], true)
+  | o, none :: r =>
+    match o.finish P with
+    | .ok (dg, o') => let (ds, ab) := runScript P o' r; (dg :: ds, ab)
+    | _ => ([], true)
+
+/-- release build (`NDEBUG`: the assertion is compiled out): a second `finish` hashes on from the padded context -/
+def finishTwiceRelease (P : Params) (c : Ctx) : List UInt8 := Md5.finish P (finishCtx P c)
+
 end Tbox.C19.Md5
